@@ -23,7 +23,8 @@ the model's `n` is the length of the record.  With `ext2` the result of `Get("CH
 valid) and `ext3` the TBD account: where the model's `row` answers `ok ds` (a record whose first or second field does not match the
 date pattern: nothing; a booking: one transaction) the translated function returns a nil error, the parser's account untouched and a
 builder that stands for the model's builder with `ds` added (`BEquiv`); where it answers `error` (both dates match but the record has
-another length than eleven; date or amount does not parse) the translated function returns an error and the parser unchanged; where
+another length than eleven; date or amount does not parse) the translated function returns an error (which is not `io.EOF`: the
+loop of `parse` does not take it for the end of the file) and the parser unchanged; where
 it answers `panic` (no field: `r[0]`; one field that matches the pattern: `r[1]`) the translated function panics with Go's index panic.
 Full agreement: no case is left out.
 -/
@@ -146,7 +147,7 @@ theorem parseBooking_11 (cur : String → Bool) (p : swisscard.parser) (b : Knut
     match booking acct [f0, f1, f2, f3, f4, f5, f6, f7, f8, f9, f10] with
     | .ok ds => ∃ p', swisscard.parser.parseBooking p [f0, f1, f2, f3, f4, f5, f6, f7, f8, f9, f10] ext1 ext2 = .ok (p', true, none) ∧
         p'.account = p.account ∧ BEquiv cur p'.builder (ds.foldl Knut.Builder.add b)
-    | .error => ∃ e, swisscard.parser.parseBooking p [f0, f1, f2, f3, f4, f5, f6, f7, f8, f9, f10] ext1 ext2 = .ok (p, false, some e)
+    | .error => ∃ e, e ≠ ⟨"EOF"⟩ ∧ swisscard.parser.parseBooking p [f0, f1, f2, f3, f4, f5, f6, f7, f8, f9, f10] ext1 ext2 = .ok (p, false, some e)
     | .panic => False := by
   unfold booking swisscard.parser.parseBooking
   simp only [matchDate_model]
@@ -155,10 +156,10 @@ theorem parseBooking_11 (cur : String → Bool) (p : swisscard.parser) (b : Knut
   simp only [replaceChfApos_model, Time.ParseDMYdot, Decimal.NewFromString, parseDMYdot_model, newFromString_model]
   simp [index, Outcome.bind, hd0, hd1, -List.filter_nil]
   cases hd : Import.parseDate Import.layoutDMYdot f0 with
-  | none => exact ⟨_, rfl⟩
+  | none => exact ⟨⟨"time.Parse"⟩, by decide, rfl⟩
   | some d =>
     cases hq : Import.newFromString (String.ofList (Import.Swisscard.stripChf f3.toList)) with
-    | none => exact ⟨_, rfl⟩
+    | none => exact ⟨⟨"can't convert %s to decimal"⟩, by decide, rfl⟩
     | some q =>
       simp only [Import.Res.ofOption, Import.Res.bind_ok]
       obtain ⟨t, ht, hbuild⟩ := TransImportSupercard.built_tx cur acct Import.tbd d
@@ -196,7 +197,7 @@ theorem readLine_agrees (cur : String → Bool) (p : swisscard.parser) (b : Knut
     match Import.Swisscard.row acct r.length r with
     | .ok ds => ∃ p', swisscard.parser.readLine p (r, none) ext2 ext3 = .ok (p', none) ∧ p'.account = p.account ∧
         BEquiv cur p'.builder (ds.foldl Knut.Builder.add b)
-    | .error => ∃ e, swisscard.parser.readLine p (r, none) ext2 ext3 = .ok (p, some e)
+    | .error => ∃ e, e ≠ ⟨"EOF"⟩ ∧ swisscard.parser.readLine p (r, none) ext2 ext3 = .ok (p, some e)
     | .panic => ∃ m, swisscard.parser.readLine p (r, none) ext2 ext3 = .panic m := by
   rw [readLine_eq]
   rcases r with _ | ⟨f0, _ | ⟨f1, rest⟩⟩
@@ -226,14 +227,14 @@ theorem readLine_agrees (cur : String → Bool) (p : swisscard.parser) (b : Knut
           exact ⟨p', by simp [hp', GoSem.Outcome.bind], hrest⟩
         | error =>
           rw [hbk] at hpb
-          obtain ⟨e, he⟩ := hpb
-          exact ⟨e, by simp [he, GoSem.Outcome.bind]⟩
+          obtain ⟨e, hne, he⟩ := hpb
+          exact ⟨e, hne, by simp [he, GoSem.Outcome.bind]⟩
         | panic => rw [hbk] at hpb; exact hpb.elim
       · have hrow : Import.Swisscard.row acct (f0 :: f1 :: rest).length (f0 :: f1 :: rest) = .error := by
           simp [Import.Swisscard.row, Import.fld, hd0, hd1, hlen]
         rw [hrow]
         have h11 : ¬ ((rest.length : Int) + 1 + 1 = 11) := by omega
-        exact ⟨⟨"expected 11 items, got %v"⟩, by simp [swisscard.parser.parseBooking, index, GoSem.Outcome.bind, matchDate_model, hd0, hd1, h11]⟩
+        exact ⟨⟨"expected 11 items, got %v"⟩, by decide, by simp [swisscard.parser.parseBooking, index, GoSem.Outcome.bind, matchDate_model, hd0, hd1, h11]⟩
     · have hrow : Import.Swisscard.row acct (f0 :: f1 :: rest).length (f0 :: f1 :: rest) = .ok [] := by
         by_cases hd0 : Import.dateRe f0 = true
         · have hd1 : ¬ Import.dateRe f1 = true := fun h => hd ⟨hd0, h⟩
